@@ -243,10 +243,11 @@ func (r *Reader) decodeG3ScanLine2D() {
 // followed by the terminating code.
 func (r *Reader) decodeFullRun(isWhite bool) int {
 	total := 0
-	// A well-formed run has at most a few makeup codes followed by a
-	// terminating code. Limit iterations to catch malformed data that
-	// produces endless makeup codes from buffered bits.
-	for range 64 {
+	// A well-formed run has some makeup codes followed by a terminating
+	// code.  Each makeup code adds at least 64 pixels, so the check against
+	// r.Columns below also ends the loop for malformed data that produces
+	// endless makeup codes from buffered bits.
+	for {
 		runLength, st := r.decodeRun(isWhite)
 		total += runLength
 		if st == S_TermW || st == S_TermB || st == S_EOL || r.err != nil {
